@@ -45,26 +45,54 @@ Definition cache_injective_on (U : list settings) : Prop :=
     cache_of c1 (y_toks y) = cache_of c2 (y_toks y) -> gen_y y c1 = gen_y y c2.
 Definition cache_injective (c0 : settings) (h : hist) : Prop := cache_injective_on (used c0 h).
 
-(* WHICH settings are covered by the cache string: all parser-builder settings
-   of the mirror except the type parameter.  Stated as: injectivity between two
-   settings holds exactly when equal cache strings force equal [p_st]. *)
-Definition cache_misses_exactly_storaget_stmt : Prop :=
+(* WHICH inputs of the generated text the cache string covers.  The generated
+   parser file [gen_y y c] is a function of the grammar text, of the recorded
+   vector [cache_of c (y_toks y)] (the CACHE INFORMATION comment is part of the
+   file) and of two type names spliced into the code: StorageT/LexerTypesT
+   ([p_st]) and — under the yacc kinds with action wrappers — LexemeT ([eff_lx]).
+   Injectivity between two settings holds exactly when equal cache strings
+   force these two to be equal. *)
+Definition cache_misses_exactly_type_params_stmt : Prop :=
   forall c1 c2 y,
     (cache_of c1 (y_toks y) = cache_of c2 (y_toks y) -> gen_y y c1 = gen_y y c2) <->
-    (cache_of c1 (y_toks y) = cache_of c2 (y_toks y) -> p_st c1 = p_st c2).
+    (cache_of c1 (y_toks y) = cache_of c2 (y_toks y) -> p_st c1 = p_st c2 /\ eff_lx c1 = eff_lx c2).
 
-(* in particular a history that never changes the type parameter satisfies it *)
-Definition storaget_fixed (c0 : settings) (h : hist) : Prop :=
-  forall c, In c (used c0 h) -> p_st c = p_st c0.
-Definition storaget_fixed_cache_injective_stmt : Prop :=
-  forall c0 h, storaget_fixed c0 h -> cache_injective c0 h.
+(* the builders as they are (0fd20df, 9933a08) record both type names *)
+Definition type_params_recorded (c : settings) : Prop := p_stc c = p_st c /\ p_lxc c = p_lx c.
 
-(* and so does every history of a builder that records the type parameter in
-   the cache string (the proposed repair) *)
-Definition storaget_recorded (c0 : settings) (h : hist) : Prop :=
-  forall c, In c (used c0 h) -> p_stc c = p_st c.
-Definition storaget_recorded_cache_injective_stmt : Prop :=
-  forall c0 h, storaget_recorded c0 h -> cache_injective c0 h.
+(* ... and then the recorded vector IS the list of inputs the generated text
+   depends on besides the grammar text: two settings generate the same file from
+   a grammar text iff they give the same cache string.  (<-: nothing the text
+   depends on is missing from the vector; ->: nothing is recorded that does not
+   show in the file, so no setting change is invisible in the output either.)
+   The grammar text itself is covered by the modification-time test, see
+   not_regenerated_implies_unchanged. *)
+Definition cache_records_all_generated_inputs_stmt : Prop :=
+  forall c1 c2 y, type_params_recorded c1 -> type_params_recorded c2 ->
+    (gen_y y c1 = gen_y y c2 <-> cache_of c1 (y_toks y) = cache_of c2 (y_toks y)).
+
+(* every history of such a builder satisfies cache_injective: for the code as it
+   is the hypothesis of the theorems below is always met *)
+Definition type_params_recorded_in (c0 : settings) (h : hist) : Prop :=
+  forall c, In c (used c0 h) -> type_params_recorded c.
+Definition type_params_recorded_cache_injective_stmt : Prop :=
+  forall c0 h, type_params_recorded_in c0 h -> cache_injective c0 h.
+
+(* a builder that does not record them: histories that never change them *)
+Definition type_params_fixed (c0 : settings) (h : hist) : Prop :=
+  forall c, In c (used c0 h) -> p_st c = p_st c0 /\ p_lx c = p_lx c0.
+Definition type_params_fixed_cache_injective_stmt : Prop :=
+  forall c0 h, type_params_fixed c0 h -> cache_injective c0 h.
+
+(* each of the two is needed: with LEXEME_T left out of the vector (the code
+   before 9933a08: p_lxc constant) two settings that differ only in LexemeT give
+   the same cache string and different files; likewise STORAGE_T/LEXER_TYPES_T *)
+Definition lexemet_unrecorded_refuted_stmt : Prop :=
+  exists c1 c2 y, p_stc c1 = p_st c1 /\ p_stc c2 = p_st c2 /\ p_lxc c1 = 0 /\ p_lxc c2 = 0 /\
+    cache_of c1 (y_toks y) = cache_of c2 (y_toks y) /\ gen_y y c1 <> gen_y y c2.
+Definition storaget_unrecorded_refuted_stmt : Prop :=
+  exists c1 c2 y, p_lxc c1 = p_lx c1 /\ p_lxc c2 = p_lx c2 /\ p_stc c1 = 0 /\ p_stc c2 = 0 /\
+    cache_of c1 (y_toks y) = cache_of c2 (y_toks y) /\ gen_y y c1 <> gen_y y c2.
 
 (* ---- outcome of a build ------------------------------------------------ *)
 Definition build_ok (r : outcome bres) : Prop :=
@@ -211,7 +239,8 @@ Definition conflict_failure_deletes_parser_output_stmt : Prop :=
     snd (build_step m fixed s t) = Done b -> b_err b = Some EYConflict ->
     s_yout (fst (build_step m fixed s t)) = None.
 
-(* without cache_injective the main theorem is false: the type parameter *)
+(* without cache_injective the main theorem is false: the type parameter
+   StorageT (the code before 0fd20df) ... *)
 Definition incremental_equals_clean_needs_cache_injective_refuted_stmt : Prop :=
   exists m fixed y0 l0 c0 h t,
     clock_monotone (h ++ [(t, Build)]) /\
@@ -219,15 +248,38 @@ Definition incremental_equals_clean_needs_cache_injective_refuted_stmt : Prop :=
     build_ok (snd (build_step m fixed s t)) /\
     outputs (fst (build_step m fixed s t)) <> clean_build m fixed s t.
 
+(* ... and LexemeT (the code before 9933a08; the history of audit 2: build;
+   the user's `impl LexerTypes` gets another `type LexemeT`; build) *)
+Definition incremental_equals_clean_lexemet_unrecorded_refuted_stmt : Prop :=
+  exists m fixed y0 l0 c0 c1 t,
+    p_stc c0 = p_st c0 /\ p_stc c1 = p_st c1 /\ p_st c1 = p_st c0 /\
+    clock_monotone ([(1, Build); (2, SetOpt c1)] ++ [(t, Build)]) /\
+    let s := run m fixed (init y0 l0 c0) [(1, Build); (2, SetOpt c1)] in
+    build_ok (snd (build_step m fixed s t)) /\
+    parser_stage m fixed s t = Some (POk false) /\
+    outputs (fst (build_step m fixed s t)) <> clean_build m fixed s t.
+
 (* ---- concrete values for the witnesses and the satisfiability examples -- *)
 Definition ex_y (id : nat) : ysrc := {| y_id := id; y_syn := true; y_warn := false; y_conf := false; y_toks := 0 |}.
 Definition ex_l : lsrc := {| l_id := 0; l_syn := true; l_miss := false |}.
 Definition ex_c : settings :=
   {| p_yk := 0; p_rec := 0; p_vis := 0; p_ed := 2; p_eoc := true; p_wae := true; p_sw := true;
-     p_ser := 0; p_mod := 0; p_st := 2; p_stc := 0; l_vis := 0; l_ed := 2; l_mod := 0; l_ci := 0 |}.
+     p_ser := 0; p_mod := 0; p_st := 2; p_stc := 0; p_lx := 0; p_lxc := 0; l_vis := 0; l_ed := 2; l_mod := 0; l_ci := 0 |}.
 Definition ex_c_vis : settings :=
   {| p_yk := 0; p_rec := 0; p_vis := 1; p_ed := 2; p_eoc := true; p_wae := true; p_sw := true;
-     p_ser := 0; p_mod := 0; p_st := 2; p_stc := 0; l_vis := 0; l_ed := 2; l_mod := 0; l_ci := 0 |}.
+     p_ser := 0; p_mod := 0; p_st := 2; p_stc := 0; p_lx := 0; p_lxc := 0; l_vis := 0; l_ed := 2; l_mod := 0; l_ci := 0 |}.
 Definition ex_c_st : settings :=
   {| p_yk := 0; p_rec := 0; p_vis := 0; p_ed := 2; p_eoc := true; p_wae := true; p_sw := true;
-     p_ser := 0; p_mod := 0; p_st := 0; p_stc := 0; l_vis := 0; l_ed := 2; l_mod := 0; l_ci := 0 |}.
+     p_ser := 0; p_mod := 0; p_st := 0; p_stc := 0; p_lx := 0; p_lxc := 0; l_vis := 0; l_ed := 2; l_mod := 0; l_ci := 0 |}.
+(* the code as it is: both type names recorded; user actions (yacc kind 2) *)
+Definition ex_r (st lx : nat) : settings :=
+  {| p_yk := 2; p_rec := 0; p_vis := 0; p_ed := 2; p_eoc := true; p_wae := true; p_sw := true;
+     p_ser := 0; p_mod := 0; p_st := st; p_stc := st; p_lx := lx; p_lxc := lx; l_vis := 0; l_ed := 2; l_mod := 0; l_ci := 0 |}.
+(* the code before 9933a08: LexemeT not recorded *)
+Definition ex_nolx (lx : nat) : settings :=
+  {| p_yk := 2; p_rec := 0; p_vis := 0; p_ed := 2; p_eoc := true; p_wae := true; p_sw := true;
+     p_ser := 0; p_mod := 0; p_st := 5; p_stc := 5; p_lx := lx; p_lxc := 0; l_vis := 0; l_ed := 2; l_mod := 0; l_ci := 0 |}.
+(* the code before 0fd20df: StorageT/LexerTypesT not recorded *)
+Definition ex_nost (st : nat) : settings :=
+  {| p_yk := 2; p_rec := 0; p_vis := 0; p_ed := 2; p_eoc := true; p_wae := true; p_sw := true;
+     p_ser := 0; p_mod := 0; p_st := st; p_stc := 0; p_lx := 1; p_lxc := 1; l_vis := 0; l_ed := 2; l_mod := 0; l_ci := 0 |}.
